@@ -59,6 +59,9 @@ CAT = {
     'G27': ([('a', 4, 1.0, 0.0, 180.0, 0.002), ('a', 4, 1.0, 180.0, 360.0, 0.002)], False),
     # a grounded sloping wire in the vertical plane x = y (a quarter turn about z puts it into the plane x = -y: dx + dy = 0 exactly)
     'G28': ([('w', 3, (0.6, 0.6, 1.5), (0.0, 0.0, 0.0), 0.002)], True),
+    # an inverted L entered top wire first: the second object is grounded at its FIRST end and meets the earlier object with its second
+    'G29': ([('w', 3, (0.0, 0.0, 1.5), (1.4, 0.3, 1.6), 0.003),
+             ('w', 3, (0.0, 0.0, 0.0), (0.0, 0.0, 1.5), 0.002)], True),
     'G16': ([('w', 4, (0.2, 0.1, 2.0), (0.0, 0.0, 0.0), 0.002),
              ('w', 2, (0.2, 0.1, 2.0), (1.1, 0.4, 2.1), 0.003)], True),
 }
